@@ -178,6 +178,22 @@ theorem fnValue_sim {a b : V} (h : SimV a b) : fnValue a = fnValue b := by
     | [_], _ :: _ :: _, hv => simp at hv
     | _ :: _ :: _, [_], hv => simp at hv
 
+theorem fnTypeof_sim {a b : V} (h : SimV a b) : fnTypeof a = fnTypeof b := by
+  rcases h.cases with rfl | ⟨ns1, ns2, rfl, rfl, hv⟩
+  · rfl
+  · simp only [fnTypeof, hv]
+
+theorem fnIsInstance_sim {a b t u : V} (h : SimV a b) (ht : SimV t u) :
+    fnIsInstance a (unpackValue t) = fnIsInstance b (unpackValue u) := by
+  have hu := unpackValue_sim ht
+  rcases h.cases with rfl | ⟨ns1, ns2, rfl, rfl, hv⟩
+  · rcases hu.cases with e | ⟨ms1, ms2, e1, e2, _⟩
+    · rw [e]
+    · rw [e1, e2]; cases a <;> rfl
+  · rcases hu.cases with e | ⟨ms1, ms2, e1, e2, _⟩
+    · rw [e]; simp only [fnIsInstance, hv]
+    · rw [e1, e2]; rfl
+
 theorem fnMatch_nodes_left (rx : Rx) (full : Bool) (ns : List Node) (p : V) :
     fnMatch rx full (.nodes ns) p = .val (.bool false) := by
   simp [fnMatch]
@@ -267,28 +283,7 @@ theorem compare_sim (rx : Rx) (op : CmpOp) {l l' r r' : V} (hl : SimV l l') (hr 
 
 /-! ## function extensions -/
 
-def fnApply (rx : Rx) (name : Str) (vs : List V) : V :=
-  if name = "length".toList then
-    match vs with
-    | [a] => fnLength (unpackValue a)
-    | _ => .undef
-  else if name = "count".toList then
-    match vs with
-    | [a] => fnCount a
-    | _ => .undef
-  else if name = "value".toList then
-    match vs with
-    | [a] => fnValue a
-    | _ => .undef
-  else if name = "match".toList then
-    match vs with
-    | [a, b] => fnMatch rx true (unpackValue a) (unpackValue b)
-    | _ => .undef
-  else if name = "search".toList then
-    match vs with
-    | [a, b] => fnMatch rx false (unpackValue a) (unpackValue b)
-    | _ => .undef
-  else .undef
+def fnApply (rx : Rx) (name : Str) (vs : List V) : V := applyFn rx name vs
 
 theorem evalExpr_func (env : Env) (cur : J) (key : Option Part) (name : Str) (args : List Expr) :
     evalExpr env cur key (.func name args) = fnApply env.rx name (evalArgs env cur key args) := by
@@ -300,7 +295,7 @@ inductive SimVs : List V → List V → Prop
 
 theorem fnApply_sim (rx : Rx) (name : Str) {vs1 vs2 : List V} (h : SimVs vs1 vs2) :
     SimV (fnApply rx name vs1) (fnApply rx name vs2) := by
-  unfold fnApply
+  unfold fnApply applyFn
   cases h with
   | nil => exact SimV.refl _
   | cons ha ht =>
@@ -311,7 +306,9 @@ theorem fnApply_sim (rx : Rx) (name : Str) {vs1 vs2 : List V} (h : SimVs vs1 vs2
       · exact SimV.of_eq (fnLength_sim (unpackValue_sim ha))
       · exact SimV.of_eq (fnCount_sim ha)
       · exact SimV.of_eq (fnValue_sim ha)
-      all_goals exact SimV.refl _
+      all_goals first
+        | exact SimV.of_eq (fnTypeof_sim ha)
+        | exact SimV.refl _
     | cons hb ht =>
       cases ht with
       | nil =>
@@ -319,6 +316,7 @@ theorem fnApply_sim (rx : Rx) (name : Str) {vs1 vs2 : List V} (h : SimVs vs1 vs2
         repeat' split
         all_goals first
           | exact SimV.of_eq (fnMatch_sim rx _ (unpackValue_sim ha) (unpackValue_sim hb))
+          | exact SimV.of_eq (fnIsInstance_sim ha hb)
           | exact SimV.refl _
       | cons hc ht =>
         simp only
